@@ -17,12 +17,14 @@ lit = json.dumps(want, indent=8, sort_keys=True)
 # C07 additionally pins the other writers of the position (Model/PositionWriters.lean); the closing
 # brace of the first dictionary must not be followed by a newline (the pattern below ends at "},\n")
 lit7 = json.dumps(facts["position_writers_src"], indent=8, sort_keys=True)
+# process-global state of the transcribed files (dimension audit): compact literal, no newline inside
+litg = json.dumps(facts["sender_globals"], sort_keys=True)
 for pid in ["C01", "C02", "C07", "C09"]:
     p = os.path.join(root, "checks", "p", pid + ".py")
     s = open(p).read()
-    new = '"expected_facts": {"sender_src": ' + lit + '},'
+    new = '"expected_facts": {"sender_src": ' + lit + ', "sender_globals": ' + litg + '},'
     if pid == "C07":
-        new = '"expected_facts": {"sender_src": ' + lit + ', "position_writers_src": ' + lit7 + '},'
+        new = '"expected_facts": {"sender_src": ' + lit + ', "position_writers_src": ' + lit7 + ', "sender_globals": ' + litg + '},'
     s2, n = re.subn(r'"expected_facts": \{.*?\},\n', new + "\n", s, count=1, flags=re.S)
     if n != 1:
         sys.exit(f"{p}: expected_facts not found")
